@@ -132,6 +132,7 @@ class SpecDB:
         self.db_cp = 65001
         self.tables = {}          # user tables: name -> {"cols": [...], "rows": [[...]]}
         self.has_validation = True
+        self.orphan_validation = []   # _Validation rows of a foreign file that describe tables which do not exist
         self.bits_override = {}   # (table, column) -> type word as a foreign encoder wrote it (e.g. integer field size 1)
         self.streams = {}
         self.summary = {"codepage": 65001, "title": ["Installation Database", "Patch", "Transform"][ptype], "subject": None,
@@ -163,6 +164,8 @@ class SpecDB:
             return "err"
         if not self.has_validation and any(c["range"] or c["cat"] or c["enum"] or c.get("fk") for c in cols):
             return "err"      # nowhere to record these attributes: refused rather than silently lost
+        if any(r[0] == name and r[1] in names for r in self.orphan_validation):
+            return "err"      # _Validation already describes such a column: refused as a whole, nothing may change
         return "ok" if storable(name, cols) else "err"
 
     def predict_drop_table(self, name):
@@ -252,6 +255,7 @@ class SpecDB:
 
     def drop_table(self, name):
         del self.tables[name]
+        self.orphan_validation = [r for r in self.orphan_validation if r[0] != name]    # DELETE FROM _Validation WHERE Table = name
 
     def insert(self, name, rows):
         t = self.tables[name]
@@ -284,7 +288,7 @@ class SpecDB:
                 vrow.append(validation_row(n, c))
         out["_Columns"] = sorted(crow, key=lambda r: key_of(COLUMNS_COLS, r))
         if self.has_validation:
-            out["_Validation"] = sorted(vrow, key=lambda r: key_of(VALIDATION_COLS, r))
+            out["_Validation"] = sorted(vrow + [list(r) for r in self.orphan_validation], key=lambda r: key_of(VALIDATION_COLS, r))
         return out
 
     def expected_tables(self):
